@@ -3,8 +3,8 @@
 EXTENDS FkCases
 VARIABLE i
 ArmAll == "all"
-Fam == SetToSeq(Families)
-Init == i = 1
-Next == i <= Len(Fam) /\ PrintT(<<"CASE", ToJson(Fam[i])>>) /\ i' = i + 1
+\* one step prints every case (the sequence is built once)
+Init == i = 0
+Next == i = 0 /\ i' = 1 /\ LET A == Families IN \A j \in DOMAIN A : PrintT(<<"CASE", ToJson(A[j])>>)
 Spec == Init /\ [][Next]_i
 =============================================================================
